@@ -28,6 +28,9 @@ func unitsFor(prop, tier string) []Unit {
 	for i, sc := range x1Scenarios(prop, tier) {
 		us = append(us, Unit{Prop: prop, Tier: tier, Kind: "x1", Index: i, Name: "x1/" + sc.Name})
 	}
+	for i, c := range x2Configs(prop, tier) {
+		us = append(us, Unit{Prop: prop, Tier: tier, Kind: "x2", Index: i, Name: "x2/" + c.Name})
+	}
 	return us
 }
 
@@ -44,6 +47,8 @@ func runUnit(u Unit) UnitResult {
 		scs := x1Scenarios(u.Prop, u.Tier)
 		sc := scs[u.Index]
 		return runX1Unit(u, sc, x1Bound(u.Prop, u.Tier))
+	case "x2":
+		return runX2Unit(u, x2Configs(u.Prop, u.Tier)[u.Index])
 	}
 	panic("unknown unit kind " + u.Kind)
 }
